@@ -771,6 +771,7 @@ func (h *harnessRun) runPath(script []int, solver *Solver) (newWork [][]int) {
 		onceDone:  make(map[*value]bool),
 		timers:    make(map[*value]bool),
 		syncMaps:  make(map[*value]*omap),
+		atomicValues: make(map[*value]value),
 		wg:        make(map[*value]int),
 		built:     make(map[*ssa.Package]bool),
 		natives:   make(map[string]value),
